@@ -19,9 +19,12 @@ try:
   diff = os.path.join(out, 'm%s.diff' % i)
   c1 = sh(['/venv/bin/python', demo], cwd=wt, timeout=1800).returncode
   ap = sh(['git', 'apply', diff], cwd=wt)
-  if ap.returncode:   # written against an earlier HEAD (before a fix: commit): three-way merge
-    ap = sh(['git', 'apply', '--3way', diff], cwd=wt)
-    sh(['git', 'reset', '-q'], cwd=wt)
+  if ap.returncode:   # written against an earlier HEAD (before the fix: commits F19-F21): rebuild it against HEAD
+    rb = os.path.join(out, 'm%s.rebased.diff' % i)
+    r = sh(['python3', '/verif/tools/rebase_patch.py', diff, rb])
+    if r.returncode == 0:
+      diff = rb
+      ap = sh(['git', 'apply', diff], cwd=wt)
   if ap.returncode:
     print(sid, 'patch does not apply', ap.stderr[:300]); sys.exit(3)
   r2 = sh(['/venv/bin/python', demo], cwd=wt, timeout=1800)
